@@ -208,6 +208,12 @@ func (g *gen) path(allowNil bool, emptyNames bool) *GPath {
 	if r.Chance(1, 12) {
 		p.Origin = "o2"
 	}
+	if r.Chance(1, 12) {
+		p.Target = "tp" // legal but ignored on anything but a prefix
+	}
+	if emptyNames && len(p.Elems) > 0 && r.Chance(1, 12) {
+		p.Elems[r.Intn(len(p.Elems))].Name = []string{"x/y", "a b", "[k=v]", "..", "meta/sync"}[r.Intn(5)]
+	}
 	if r.Chance(1, 25) {
 		p = &GPath{Elems: names("meta", "latency", "window", "10ns", []string{"avg", "max", "min"}[r.Intn(3)])}
 	}
@@ -535,6 +541,31 @@ func longFamilies(emit func(Case)) {
 }
 
 // ---------------------------------------------------------------------------
+// extreme values of the numeric fields: every ordered pair of timestamps from
+// {min int64, -1, 0, 1, max int64 - 1, max int64} on one leaf (comparison, not
+// subtraction, decides staleness), then a delete at each of them
+
+func extremesIngest(emit func(Case)) {
+	tss := []int64{math.MinInt64, -1, 0, 1, math.MaxInt64 - 1, math.MaxInt64}
+	targets := []string{"t1", "t2"}
+	t1 := &GPath{Target: "t1"}
+	ph := &GPath{Elems: names("a", "b")}
+	for _, a := range tss {
+		for _, b := range tss {
+			for _, d := range []int64{math.MinInt64, 0, math.MaxInt64} {
+				emit(Case{Family: "ingest-extremes", Kind: "ingest", Targets: targets, Ops: []Op{
+					{K: "msg", N: &Noti{TS: a, Prefix: t1, Upd: []Upd{{Path: ph, Val: TV{K: "int", I: math.MaxInt64}}}}},
+					{K: "msg", N: &Noti{TS: b, Prefix: t1, Upd: []Upd{{Path: ph, Val: TV{K: "uint", U: math.MaxUint64}}}}},
+					{K: "msg", N: &Noti{TS: d, Prefix: t1, Del: []GPath{*ph}}},
+					{K: "msg", N: &Noti{TS: a, Prefix: t1, Upd: []Upd{{Path: ph, Val: TV{K: "int", I: math.MinInt64}}, {Path: &GPath{Elems: names("c")}, Val: TV{K: "decimal", I: math.MinInt64, P: math.MaxUint32}}}}},
+					{K: "refresh"},
+				}})
+			}
+		}
+	}
+}
+
+// ---------------------------------------------------------------------------
 // metadata leaves of a cache created with options: every registered metadata
 // path (and a few neighbours) written with every kind of value, with and
 // without a synced target that took a latency sample, then the refresh
@@ -823,6 +854,9 @@ func (g *gen) randomSub() Case {
 
 func (g *gen) resp(emptyNames bool) *Resp {
 	r := g.r
+	if r.Chance(1, 30) {
+		return &Resp{K: "fail"}
+	}
 	switch r.Pick(14, 4, 1, 1) {
 	case 1:
 		return &Resp{K: "sync"}
@@ -853,8 +887,13 @@ func (g *gen) resp(emptyNames bool) *Resp {
 		if r.Chance(1, 12) {
 			u.Path = &GPath{}
 		}
+		if r.Chance(1, 10) {
+			// both encodings at once: the typed value wins
+			u.Dep = &Dep{Enc: int32(r.Intn(6)), B: []string{`{"a":1}`, `{bad`, `raw`}[r.Intn(3)]}
+		}
 		if r.Chance(1, 5) {
 			u.Val = TV{K: "nil"}
+			u.Dep = nil
 			if r.Chance(3, 4) {
 				u.Dep = &Dep{Enc: int32(r.Intn(6)), B: []string{`{"a":1}`, `5`, `{bad`, ``, `raw`}[r.Intn(5)]}
 			}
@@ -925,6 +964,15 @@ func gridCli(emit func(Case)) {
 								ops = append(ops, Op{K: "resp", R: &Resp{K: "update", N: &Noti{TS: 4, Prefix: pf, Del: []GPath{*ph}}}})
 							}
 							emit(Case{Family: "cli-grid", Kind: "cli", DT: dt, QT: qt, TS: ts, Ops: ops})
+							if v.K == "int" && ph != nil && len(ph.Elems) == 1 {
+								for pos := 0; pos <= len(ops); pos++ {
+									f := append(append(append([]Op{}, ops[:pos]...), Op{K: "resp", R: &Resp{K: "fail"}}), ops[pos:]...)
+									emit(Case{Family: "cli-fault", Kind: "cli", DT: dt, QT: qt, TS: ts, Ops: f})
+									if dt == "group" && !ts {
+										emit(Case{Family: "recv-fault", Kind: "recv", QT: qt, Ops: f})
+									}
+								}
+							}
 						}
 					}
 				}
